@@ -78,18 +78,34 @@ def _c09_phaseB(case):
 
 @predicate("C09-cleared-tensor-reused-or-mutated")
 def _c09_stale(case, mm):
+    """Signature: after a clearing step in phase B, either (i) a new operation re-uses a tensor (refilling a consumer
+    set although a creator chain / re-routing is gone), or (ii) an in-place update writes a value that has a history
+    of its own (an op result or a leaf that was itself updated in place).  A clearing step followed only by in-place
+    updates with pristine leaf / scalar / array values is NOT covered: there MyGrad raises InvalidBackprop, and any
+    deviation is reported."""
     if mm.kind not in ("grad_from_post_mutation_values", "grad_not_of_recorded_computation",
                        "final_backward_wrong_exception", "grad_missing", "grad_written_to_unrelated", "raised"):
         return False
     if mm.kind == "raised" and "RecursionError" not in mm.detail:
         return False
+    from vf.ir import RefRun
+
     stmts, endA = _c09_phaseB(case)
+    leaves = {s["h"] for s in stmts if s["k"] == "leaf"}
+    ref = RefRun(case["prog"]).run()
+    mutated_owners = set()
     seen_clear = False
-    for s in stmts[endA:]:
-        if s["k"] in ("backward", "clear"):
+    for i, s in enumerate(stmts):
+        if i >= endA and s["k"] in ("backward", "clear"):
             seen_clear = True
-        elif seen_clear and s["k"] in ("inplace", "op"):
-            return True
+        if seen_clear and i >= endA:
+            if s["k"] == "op":
+                return True  # any re-use after the clearing step (refills a consumer set)
+            elif s["k"] == "inplace":
+                if any(a not in leaves or ref.owner.get(a) in mutated_owners for a in s.get("args", [])):
+                    return True  # the written value has a history of its own
+        if s["k"] == "inplace":
+            mutated_owners.add(ref.owner.get(s["target"]))
     return False
 
 
